@@ -125,3 +125,118 @@ theorem ntt_eq_BF (d : Nat) (a : List Nat) (ha : a.length = 2 ^ d) : ntt d a = n
   rw [nttBF_eq_nttRecO zpOps T d a ha, ntt, nttRec_eq_O]
 
 end Falcon.Zp
+
+/-! ### the inverse transform -/
+
+namespace Falcon.FftFlt
+variable {α : Type}
+
+/-- one stage of the inverse transform: consecutive blocks are merged pairwise, pair i of the stage whose parents start
+    at twiddle index p using `TI (p + i)` (Gentleman–Sande butterflies: `(u + v, (u − v)·s)`) -/
+def mergeStageO (o : Ops α) (TI : Nat → α) : Nat → List (List α) → List (List α)
+  | p, x :: y :: rest =>
+    (List.zipWith o.add x y ++ List.zipWith (fun u v => o.mul (o.sub u v) (TI p)) x y) :: mergeStageO o TI (p + 1) rest
+  | _, _ => []
+
+/-- `r` stages, the last one with parents starting at twiddle index `p` (so the first one starts at `p·2^(r−1)`) -/
+def bfInvO (o : Ops α) (TI : Nat → α) : Nat → Nat → List (List α) → List (List α)
+  | 0, _, bs => bs
+  | r + 1, p, bs => mergeStageO o TI p (bfInvO o TI r (2 * p) bs)
+
+/-- the breadth-first inverse transform (without the final scaling) of a vector of length 2^d -/
+def inttBF (o : Ops α) (TI : Nat → α) (d : Nat) (a : List α) : List α := (bfInvO o TI d 1 (a.map fun x => [x])).flatten
+
+def dfInvAll (o : Ops α) (TI : Nat → α) (r : Nat) : Nat → List (List α) → List (List α)
+  | _, [] => []
+  | k, s :: ss => inttRecO o TI r k s :: dfInvAll o TI r (k + 1) ss
+
+/-- every block cut in two halves -/
+def halves (r : Nat) : List (List α) → List (List α)
+  | [] => []
+  | s :: ss => s.take (2 ^ r) :: s.drop (2 ^ r) :: halves r ss
+
+theorem halves_flatten (r : Nat) : ∀ (segs : List (List α)), (halves r segs).flatten = segs.flatten
+  | [] => rfl
+  | s :: ss => by simp [halves, halves_flatten r ss, ← List.append_assoc, List.take_append_drop]
+
+theorem halves_lengths (r : Nat) : ∀ (segs : List (List α)), (∀ s ∈ segs, s.length = 2 ^ (r + 1)) →
+    ∀ s ∈ halves r segs, s.length = 2 ^ r
+  | [], _, s, hs => by simp [halves] at hs
+  | s0 :: ss, hl, s, hs => by
+    have h0 : s0.length = 2 ^ (r + 1) := hl s0 (List.mem_cons_self ..)
+    simp only [halves, List.mem_cons] at hs
+    rcases hs with rfl | rfl | hs
+    · rw [List.length_take, h0, Nat.pow_succ]; omega
+    · rw [List.length_drop, h0, Nat.pow_succ]; omega
+    · exact halves_lengths r ss (fun x hx => hl x (List.mem_cons_of_mem _ hx)) s hs
+
+theorem merge_df (o : Ops α) (TI : Nat → α) (r : Nat) : ∀ (p : Nat) (segs : List (List α)),
+    mergeStageO o TI p (dfInvAll o TI r (2 * p) (halves r segs)) = dfInvAll o TI (r + 1) p segs
+  | _, [] => rfl
+  | p, s :: ss => by
+    have e : 2 * p + 1 + 1 = 2 * (p + 1) := by omega
+    simp only [halves, dfInvAll, mergeStageO, inttRecO, e, merge_df o TI r (p + 1) ss]
+
+theorem singletons (segs : List (List α)) (h : ∀ s ∈ segs, s.length = 1) : segs.flatten.map (fun x => [x]) = segs := by
+  induction segs with
+  | nil => rfl
+  | cons s ss ih =>
+    have h0 := h s (List.mem_cons_self ..)
+    match s, h0 with
+    | [x], _ =>
+      simp only [List.flatten_cons, List.singleton_append, List.map_cons]
+      rw [ih (fun y hy => h y (List.mem_cons_of_mem _ hy))]
+
+theorem df_inv_zero (o : Ops α) (TI : Nat → α) : ∀ (k : Nat) (segs : List (List α)), dfInvAll o TI 0 k segs = segs
+  | _, [] => rfl
+  | k, s :: ss => by simp [dfInvAll, inttRecO, df_inv_zero o TI (k + 1) ss]
+
+/-- the merging stages, innermost first, compute the depth-first inverse networks -/
+theorem bfInv_eq_df (o : Ops α) (TI : Nat → α) : ∀ (r p : Nat) (segs : List (List α)),
+    (∀ s ∈ segs, s.length = 2 ^ r) → bfInvO o TI r p (segs.flatten.map fun x => [x]) = dfInvAll o TI r p segs := by
+  intro r
+  induction r with
+  | zero =>
+    intro p segs hl
+    simp only [bfInvO, df_inv_zero]
+    exact singletons segs (by simpa using hl)
+  | succ r ih =>
+    intro p segs hl
+    simp only [bfInvO]
+    rw [← halves_flatten r segs, ih (2 * p) (halves r segs) (halves_lengths r segs hl), merge_df]
+
+/-- **the breadth-first loop nest of the inverse transform is the depth-first inverse network**, for any operations -/
+theorem inttBF_eq_inttRecO (o : Ops α) (TI : Nat → α) (d : Nat) (a : List α) (ha : a.length = 2 ^ d) :
+    inttBF o TI d a = inttRecO o TI d 1 a := by
+  unfold inttBF
+  have := bfInv_eq_df o TI d 1 [a] (by simpa using ha)
+  simp only [List.flatten_cons, List.flatten_nil, List.append_nil] at this
+  rw [this]
+  simp [dfInvAll]
+
+end Falcon.FftFlt
+
+namespace Falcon.Ntt
+open Falcon.FftFlt
+
+theorem inttRec_eq_O : ∀ (d k : Nat) (a : List Nat), inttRec d k a = inttRecO zqOps TI d k a
+  | 0, _, _ => rfl
+  | d + 1, k, a => by simp only [inttRec, inttRecO, inttRec_eq_O d, zqOps]
+
+/-- the butterflies of the Z_q inverse transform are the breadth-first loop nest of the Rust code -/
+theorem inttRec_eq_BF (d : Nat) (a : List Nat) (ha : a.length = 2 ^ d) : inttRec d 1 a = inttBF zqOps TI d a := by
+  rw [inttBF_eq_inttRecO zqOps TI d a ha, inttRec_eq_O]
+
+end Falcon.Ntt
+
+namespace Falcon.Zp
+open Falcon.FftFlt
+
+theorem inttRec_eq_O : ∀ (d k : Nat) (a : List Nat), inttRec d k a = inttRecO zpOps TI d k a
+  | 0, _, _ => rfl
+  | d + 1, k, a => by simp only [inttRec, inttRecO, inttRec_eq_O d, zpOps]
+
+theorem inttRec_eq_BF (d : Nat) (a : List Nat) (ha : a.length = 2 ^ d) : inttRec d 1 a = inttBF zpOps TI d a := by
+  rw [inttBF_eq_inttRecO zpOps TI d a ha, inttRec_eq_O]
+
+end Falcon.Zp
